@@ -143,6 +143,15 @@ PROPERTIES['C18'] = {
     'level_note': _SEL_NOTE.replace('Four documents covering every directive class; one edit / perturbation (two non-editing operations in thorough).', 'Eight parent kinds, five layouts, eight routes.'),
 }
 
+PROPERTIES['C01'] = {
+    'modules': ['harness.c01_parse'], 'budget': {'quick': 1500, 'thorough': 3300},
+    'level_text': 'Bounded symbolic execution of the REAL parser on symbolic text: a minimal template with 1-2 symbolic Unicode code points inserted at '
+                  'every between-token offset (and whole texts of <= 3 code points), lexed by the grammar\'s own terminal regexes (symre), parsed by '
+                  'lark\'s LALR driver, PostLex and ModelBuilder; print == text, store == text, every sub-model prints the slice it spans.',
+    'level_note': 'Trusted: CrossHair, z3, symre (validated against re on every run). Eight minimal templates (<= 40 characters), hole <= 2 code points '
+                  '(second from the trivia alphabet), whole texts <= 3 code points; both attribution modes; parse targets File and the template\'s own class.',
+}
+
 NOT_APPLICABLE = {
     'C16': 'The property is about the operating system and C io layer behind editor.py (text-mode newline translation, pathlib/glob/'
            'os.unlink/os.makedirs, mtimes): none of it can be executed symbolically by CrossHair or encoded for z3, CrossHair forbids '
